@@ -13,7 +13,37 @@ sys.path.insert(0, os.path.dirname(os.path.abspath(__file__)))
 import common  # noqa: E402
 
 
+class _Unclosable:
+    """stdout / stderr for the check itself: the interpreter under test wraps sys.stdout in channel objects whose finaliser closes
+    the stream (a change that drops those objects must not silence the verdict lines)"""
+    def __init__(self, fd):
+        self._f = os.fdopen(os.dup(fd), "w", buffering=1, errors="replace")
+
+    def write(self, s):
+        return self._f.write(s)
+
+    def flush(self):
+        try:
+            self._f.flush()
+        except Exception:   # noqa
+            pass
+
+    def close(self):
+        pass
+
+    def fileno(self):
+        return self._f.fileno()
+
+    def isatty(self):
+        return False
+
+    def __getattr__(self, name):
+        return getattr(self._f, name)
+
+
 def main():
+    sys.stdout = _Unclosable(1)
+    sys.stderr = _Unclosable(2)
     ap = argparse.ArgumentParser()
     ap.add_argument("prop")
     ap.add_argument("--tier", default=os.environ.get("VERIF_TIER", "quick"), choices=["quick", "thorough"])
@@ -44,6 +74,11 @@ def main():
 
 if __name__ == "__main__":
     rc = main()
+    try:
+        import atexit
+        atexit._run_exitfuncs()          # scratch directories are removed here
+    except Exception:   # noqa
+        pass
     sys.stdout.flush()
     sys.stderr.flush()
-    os._exit(rc if isinstance(rc, int) else 0) if False else sys.exit(rc)
+    os._exit(rc if isinstance(rc, int) else 0)      # (no interpreter shutdown: finalisers of the code under test stay out of it)
